@@ -199,13 +199,25 @@ def run_preempt(docA, docB, ks, docC=None):
             th.start()
             th.join(120)
 
+        occ = {}
+
         def tracerA(frame, event, arg):
             if event != "call":
                 return None
             code = frame.f_code
             if _is_lib(code.co_filename):
                 count["n"] += 1
-                if kset and count["n"] == kset[0]:
+                hit = False
+                if kset and isinstance(kset[0], int):
+                    hit = count["n"] == kset[0]
+                elif kset:
+                    # a preemption point given as [file, function, first line, occurrence]: independent of how many
+                    # calls a cold or warm process makes before it
+                    site = (os.path.basename(code.co_filename), code.co_name, code.co_firstlineno)
+                    if site == tuple(kset[0][:3]):
+                        occ[site] = occ.get(site, 0) + 1
+                        hit = occ[site] == kset[0][3]
+                if hit:
                     kset.pop(0)
                     if pending:
                         run_other(pending.pop(0))
@@ -244,10 +256,23 @@ def run_nested(docA, docB, kA, kB):
     try:
         docs = build_docs(names, tmp)
 
+        occ = {"A": {}, "B": {}}
+
+        def reached(t, frame, k):
+            # k: a global call index, or [file, function, first line, occurrence]
+            cnt[t] += 1
+            if isinstance(k, int):
+                return cnt[t] == k
+            code = frame.f_code
+            site = (os.path.basename(code.co_filename), code.co_name, code.co_firstlineno)
+            if site != tuple(k[:3]):
+                return False
+            occ[t][site] = occ[t].get(site, 0) + 1
+            return occ[t][site] == k[3]
+
         def tracerB(frame, event, arg):
             if event == "call" and _is_lib(frame.f_code.co_filename):
-                cnt["B"] += 1
-                if cnt["B"] == kB:
+                if reached("B", frame, kB):
                     b_paused.set()
                     b_resume.wait(120)
             return None
@@ -262,10 +287,12 @@ def run_nested(docA, docB, kA, kB):
                 b_paused.set()
         thB = threading.Thread(target=bodyB)
 
+        started = {"v": False}
+
         def tracerA(frame, event, arg):
             if event == "call" and _is_lib(frame.f_code.co_filename):
-                cnt["A"] += 1
-                if cnt["A"] == kA:
+                if reached("A", frame, kA) and not started["v"]:
+                    started["v"] = True
                     thB.start()
                     b_paused.wait(120)       # B is parked at its kB-th call (or has finished)
             return None
@@ -279,8 +306,9 @@ def run_nested(docA, docB, kA, kB):
         thA = threading.Thread(target=bodyA)
         thA.start()
         thA.join(180)
-        if not thB.is_alive() and not b_done.is_set() and cnt["A"] < kA:
-            thB.start()                       # A never reached kA: run B afterwards
+        if not started["v"]:
+            started["v"] = True
+            thB.start()                       # A never reached its preemption point: run B afterwards
         b_resume.set()
         thB.join(180)
         return {"results": results, "events": [], "calls_A": cnt["A"], "calls_B": cnt["B"], "ks": [kA, kB]}
